@@ -214,7 +214,7 @@ def run(ctx):
     # ---- large random graphs with planted back edges
     for k in range(400 if quick else 8000):
         g = gen.Gen(random.Random(rng.randint(0, 2 ** 60)), size=rng.randint(4, 40 if not quick else 20),
-                    feat=dict(deps=0.0, phony=0.2, vals=0.2, multi=0.3, rsp=0.0, chain=0.9))
+                    feat=dict(deps=0.0, phony=0.2, vals=0.2, multi=0.3, rsp=0.0, chain=0.9, dyndep=0.0))
         sc = g.scenario("C17-L-%d-%d" % (ctx.seed, k))
         cmds = [s for s in sc["stmts"]]
         mode = rng.random()
